@@ -106,6 +106,12 @@ def servedHeader (s : CacheStatus) (f : Freshness) (now : Int) (h : Header) (cc 
 def serveStale (f : Freshness) (now : Int) (stored : Entry) : Resp :=
   respWith stored.resp (servedHeader .stale f now stored.resp.header (parseCC stored.resp.header))
 
+/-- clientPreconditionForwarded: a precondition of the client's own went upstream because the stored
+    response has no validator of that kind to replace it -/
+def clientPreconditionForwarded (reqH storedH : Header) : Bool :=
+  (!(Header.get reqH sIfNoneMatch).isEmpty && (Header.get storedH sETag).isEmpty) ||
+  (!(Header.get reqH sIfModifiedSince).isEmpty && (Header.get storedH sLastModified).isEmpty)
+
 /-- HandleValidationResponse; `reqH` is the header list of the CLIENT's request: what a full reply is
     stored for (the conditional request only goes upstream) -/
 def handleValidation (cfg : Cfg) (method : Str) (reqH : Header) (key : Str) (stored : Entry)
@@ -118,7 +124,7 @@ def handleValidation (cfg : Cfg) (method : Str) (reqH : Header) (key : Str) (sto
     then k (.resp (serveStale f t1 stored))
     else k .err
   | .resp r t1 bodyOk =>
-    if method = sGET && r.status = 304 then
+    if method = sGET && r.status = 304 && !clientPreconditionForwarded reqH stored.resp.header then
       let h := updateStoredHeaders (Header.del stored.resp.header sAge) r.header
       let stored' : Entry := { stored with requestedAt := start, receivedAt := t1, resp := respWith stored.resp h }
       let out := k (.resp (respWith stored.resp (applyStatus .revalidated h)))
@@ -128,7 +134,7 @@ def handleValidation (cfg : Cfg) (method : Str) (reqH : Header) (key : Str) (sto
     then k (.resp (serveStale f t1 stored))
     else
       let ccResp := parseCC r.header
-      if canStoreResponse r ccReq ccResp then
+      if r.status ≠ 304 && canStoreResponse r ccReq ccResp then
         storeResponse cfg reqH r bodyOk key refs start t1 refIndex fun r' =>
           k (.resp (respWith r' (applyStatus .miss r'.header)))
       else k (.resp (respWith r (applyStatus .bypass r.header)))
